@@ -28,9 +28,9 @@ func goExecCfg() *Cfg {
 }
 
 type bedFailure struct {
-	Inner   json.RawMessage `json:"inner"`    // failure record of the inner binary {check, sig, msg, case}
-	Program BedProgram      `json:"program"`  // the one program the failing case belongs to
-	Index   int             `json:"index"`    // its index in the batch (case indices refer to a single-program bed after reduction)
+	Inner   json.RawMessage `json:"inner"`   // failure record of the inner binary {check, sig, msg, case}
+	Program BedProgram      `json:"program"` // the one program the failing case belongs to
+	Index   int             `json:"index"`   // its index in the batch (case indices refer to a single-program bed after reduction)
 	Tests   string          `json:"tests"`
 }
 
@@ -89,7 +89,7 @@ func bedBatch(t *testing.T, name string, tests string) {
 	var progs []BedProgram
 	for i := 0; i < nprog; i++ {
 		pc := gen.Example(seed*1000 + i)
-		progs = append(progs, BedProgram{pc.P, pc.Lex})
+		progs = append(progs, BedProgram{P: pc.P, Lex: pc.Lex, Slim: i%3 == 2})
 	}
 	dir, cleanup := scratchDir("bed")
 	defer cleanup()
